@@ -49,4 +49,13 @@ instance : Inhabited Stat := ⟨.brk⟩
 
 def zeroLoc : Loc := ⟨0, 0, 0, 0⟩
 
+/-- `GetExpLoc` -/
+def expLoc : Exp → Loc
+  | .nil l | .tru l | .fls l | .vararg l | .int _ l | .flt _ l | .str _ l | .unop _ _ l | .binop _ _ _ l
+  | .table _ _ l | .name _ l | .parens _ l | .index _ _ l | .call _ _ _ l | .bad l => l
+  | .func (.mk _ _ _ _ _ _ l) => l
+  | .noKey => zeroLoc
+
+def isInitialLoc (l : Loc) : Bool := l.sl == 0 && l.sc == 0 && l.el == 0 && l.ec == 0
+
 end LuaHelper.Ast
